@@ -39,7 +39,8 @@ def rule_wait_gate(prog):
         return res
     res.fn(f)
     # the dequeue() call and the pop_front that feeds it
-    deq = [(bi, t) for bi, t in f.calls() if norm_name(callee_name(t) or "") == KB + "Layout::dequeue"]
+    from kq.analysis import calls_incl_closures
+    deq = calls_incl_closures(prog, f, lambda t: norm_name(callee_name(t) or "") == KB + "Layout::dequeue")
     pops = [(bi, t) for bi, t in f.calls() if _short(t) == "pop_front" and t["args"] and (root_desc(f, t["args"][0]) or "").endswith(".queue")]
     if not deq or not pops:
         res.viol("anchor", f.loc, "the pop_front / dequeue pair was not found in Layout::tick")
@@ -394,13 +395,29 @@ def rule_stack_dedup(prog):
         res.viol("anchor", "keyberon/src/layout.rs", "trans_resolution_layer_order not found")
         return res
     res.fn(f)
+    short = lambda t: (callee_name(t) or "").split("::")[-1]  # noqa: E731
     dedup = False
     for bi, t in f.calls():
-        if (callee_name(t) or "").split("::")[-1] in ("retain", "retain_mut", "dedup") and len(t["args"]) > 1:
+        if short(t) in ("retain", "retain_mut", "dedup") and len(t["args"]) > 1:
             c = closure_arg(prog, f, t["args"][1])
-            if c is not None and any((callee_name(t2) or "").split("::")[-1] == "contains" for _, t2 in c.calls()):
+            if c is not None and any(short(t2) == "contains" for _, t2 in c.calls()):
                 dedup = True
-    res.inst("held-layers-deduplicated", where=f.loc, ok=dedup)
+    how = "retain(!seen.contains)" if dedup else None
+    if not dedup:
+        # the same thing written as a loop: the held layers enter the stack one by one, each push guarded by `contains`
+        # (checked below for every push), and nothing fills the stack wholesale
+        held = [bi for bi, t in f.calls() if short(t) == "active_held_layers"]
+        region = set()
+        for hb in held:
+            region |= f.dominated_by(hb)
+        bulk = [t.get("ln") for bi, t in f.calls() if bi in region and short(t) in ("collect", "from_iter", "extend", "extend_from_slice", "append")]
+        pushes = [bi for bi, t in f.calls() if bi in region and short(t) == "push"]
+        from rules.r_loopvar import loops_of
+        in_loop = any(pb in lp.body for lp in loops_of(f) for pb in pushes)
+        if held and not bulk and in_loop:
+            dedup = True
+            how = "push loop guarded by contains"
+    res.inst("held-layers-deduplicated", where=f.loc, ok=dedup, how=how)
     res.oblige(dedup)
     if not dedup:
         res.viol("held-layers-deduplicated", f.loc,
@@ -413,9 +430,13 @@ def rule_stack_dedup(prog):
         if (callee_name(t) or "").split("::")[-1] != "push" or not dedup:
             continue
         # pushes of the branch that de-duplicates (the other branch builds a stack of one or two fixed entries)
-        if not any(f.dominates(rb, bi) for rb, t2 in f.calls() if (callee_name(t2) or "").split("::")[-1] in ("retain", "retain_mut", "dedup")):
+        if not any(f.dominates(rb, bi) for rb, t2 in f.calls() if short(t2) in ("retain", "retain_mut", "dedup", "active_held_layers")):
             continue
-        ok = any(f.dominates(cb, bi) for cb in contains)
+        from rules.r_loopvar import loops_of as _loops
+        inner = [lp for lp in _loops(f) if bi in lp.body]
+        inner = min(inner, key=lambda lp: len(lp.body)) if inner else None
+        # the test belongs to this push: inside the same (innermost) loop round
+        ok = any(f.dominates(cb, bi) and (inner is None or cb in inner.body) for cb in contains)
         res.inst("push-guarded-by-contains%s" % ("#%d" % k if k else ""), where="%s:%s" % (f.file, t.get("ln")), ok=ok)
         k += 1
         res.oblige(ok)
